@@ -1,4 +1,4 @@
-SPECIFICATION MCSpec
+SPECIFICATION MCSpecSim
 CONSTANTS
   Kinds = {"honest", "alt_leaf", "omit_leaf", "wrong_id", "wrong_tree", "stale"}
   BatchSize = 4
